@@ -108,6 +108,7 @@ type FuncContract struct {
 	Inline   []string
 	Havoc    []string
 	Assigns  []string
+	Broken   string // the lowered contract does not type-check against this tree (a local it names changed its type or vanished): it decides nothing here
 	Shared   []string // `property A B`: the clauses of this contract, whatever property their label names, count for each listed property
 	Guards   [][]string // `guards p.mu p.f p.g`: the fields p.f, p.g are only stable while the lock p.mu is held (forgotten at every p.mu.Lock())
 	Rules    []string // effect rules that apply to this function
@@ -909,15 +910,21 @@ func generateOverlay(pkg *packages.Package, contracts []*FuncContract, regions [
 	g := &genInfo{pkg: pkg, imports: map[string]string{}}
 	var body strings.Builder
 	seenBase := map[string]int{}
-	for _, fc := range contracts {
+	for ci, fc := range contracts {
 		// several contract blocks may name one function (a template instance plus a specific block)
 		seenBase[safeName(fc.Func)]++
 		if n := seenBase[safeName(fc.Func)]; n > 1 {
 			fc.uniq = fmt.Sprintf("_c%d", n)
 		}
+		if fc.Broken != "" {
+			continue
+		}
+		fmt.Fprintf(&body, "// gocv:contract %d\n", ci)
 		fd, lit, sig := findFunc(pkg, fc.Func)
 		if fd == nil && fc.sig == nil {
-			return "", fmt.Errorf("%s:%d: contract for unknown function %s", fc.File, fc.Line, fc.Func)
+			// the function is gone (renamed, a function literal removed by a refactoring): this contract decides
+			// nothing about this tree (reported as UNDECIDED "function not found" when it is run); the others do
+			continue
 		}
 		if fd == nil {
 			sig = fc.sig // method of a template whose declaration lives elsewhere (promoted through an embedded field)
